@@ -104,7 +104,7 @@ PROPS["C07"] = dict(
     level="exploration",
     technique="runtime differential monitoring: online reference-model oracle (libsodium) over generated + adversarial inputs, offline pure-Python spec-model oracle over the sampled event log",
     level_text="Every public hash/MAC/core entry point is executed on every input length 0..=1100 in three content classes, on all 49x50 "
-               "digest/key length pairs and on adversarial Poly1305 operands, and each output is compared with two independent references. "
+               "digest/key length pairs (object API also with Vec keys longer than KEY_LENGTH) and on adversarial Poly1305 operands, and each output is compared with two independent references. "
                "Exploration is the honest level: the input space is unbounded, the run samples it densely at the block boundaries.",
     level_note="Trusts libsodium 1.0.18 and the vector-pinned Python models as specifications; a disagreement between the two references is reported as inconclusive, never as a violation.",
     runs=lambda tier: [dict(build="st", monitor="c07")] + _rel("c07")(tier) + _simd("c07")(tier),
